@@ -189,7 +189,10 @@ class World:
             res = fn(self.root, ".")
             if res.exc:
                 return (f"{name}:other-version:{res.exc[0]}", res.exc[1])
-            if res.code != 1 or "version mismatch" not in res.out:
+            from vf.props.c18 import parse_findings_text, parse_overview_text
+
+            shows = bool(parse_overview_text(res.out)[0]) or bool(parse_findings_text(res.out)[0])
+            if not res.code or shows:  # a refusal = a non-zero exit status and no report content, in whatever words
                 return (f"{name}:shows-other-version", f"{name} on a cache whose version is {mode!r} ({doc.get('version', '<absent>')!r}): exit {res.code}, output {res.out[:300]!r}")
         return None
 
